@@ -590,7 +590,8 @@ class Framer(tasking.Tasker):
             ScheduleNames[self.schedule],
             self.name))
 
-        exits = self.actives[:]  #make copy of self.actives so can reverse it
+        #full outline so frames suspended by a conditional aux are exited too
+        exits = self.active.outline[:] if self.active else self.actives[:]  #copy to reverse it
         self.exit(exits) #exits is reversed in place in exit()
         self.deactivate()
         if not abort:
